@@ -37,19 +37,19 @@ func DefaultCfg() Cfg {
 
 // RealResult is what the real generator did with one input.
 type RealResult struct {
-	ErrKind  string // "" = success; else a class derived from the message
-	ErrMsg   string
-	Panic    string
-	Timeout  bool
-	Src      []byte // the emitted file (single output)
-	Sources  map[string][]byte
-	Warnings []string
-	Summary  string
-	Imports  string
-	ParseErr string // go/parser error on the emitted file
-	Unformatted bool // warner said "could not be formatted"
+	ErrKind     string // "" = success; else a class derived from the message
+	ErrMsg      string
+	Panic       string
+	Timeout     bool
+	Src         []byte // the emitted file (single output)
+	Sources     map[string][]byte
+	Warnings    []string
+	Summary     string
+	Imports     string
+	ParseErr    string // go/parser error on the emitted file
+	Unformatted bool   // warner said "could not be formatted"
 	GofmtStable bool
-	RootName string
+	RootName    string
 }
 
 func ClassifyGenErr(msg string) string {
